@@ -752,6 +752,42 @@ fn main() {
             cmd_check(&id, &tier, get("--cases").and_then(|s| s.parse().ok()), workers, has("--strict-harness"), get("--oracle"))
         }
         Some("replay") => cmd_replay(args.get(2).map(|s| s.as_str()).unwrap_or(""), has("--quiet")),
+        Some("focus") => {
+            // dv focus <replay.json> [--n N]: run the program of a replay file under N pseudo-random schedules and report how often
+            // each oracle fires (triage aid, not a check: it uses its own LCG)
+            let path = args.get(2).cloned().unwrap_or_default();
+            let n: u64 = get("--n").and_then(|s| s.parse().ok()).unwrap_or(2000);
+            let rf: ReplayFile = serde_json::from_str(&std::fs::read_to_string(&path).expect("read")).expect("parse");
+            let mut tally: BTreeMap<String, u64> = BTreeMap::new();
+            let mut x: u64 = 0x2545_F491_4F6C_DD1D;
+            for i in 0..n {
+                let mut case = rf.case.clone();
+                let mut bytes = vec![];
+                for _ in 0..200 {
+                    x ^= x << 13;
+                    x ^= x >> 7;
+                    x ^= x << 17;
+                    bytes.push((x >> 24) as u8);
+                }
+                case.sched = match i % 3 {
+                    0 => Sched::Walk { stay: [0u8, 64, 128, 192][(i / 3 % 4) as usize], bytes, tail: Tail::RoundRobin },
+                    1 => Sched::Pct { prio: bytes[..10].to_vec(), changes: (0..4).map(|k| (bytes[10 + k] % 10, (bytes[20 + k] % 72) as u16, bytes[30 + k] % 40)).collect() },
+                    _ => Sched::Delay { points: (0..4).map(|k| (bytes[10 + k] % 10, (bytes[20 + k] % 72) as u16, bytes[30 + k])).collect(), rr: bytes[0] & 1 == 1 },
+                };
+                let out = run_case(&case, &RunOpts::default());
+                if out.violations.is_empty() {
+                    *tally.entry(format!("ok ({:?})", out.status).chars().take(30).collect()).or_insert(0) += 1;
+                }
+                for v in out.violations.iter() {
+                    *tally.entry(format!("{}:{}", v.prop, v.clause)).or_insert(0) += 1;
+                }
+            }
+            println!("{}", rf.case.pretty());
+            for (k, v) in tally {
+                println!("{:>8}  {}", v, k);
+            }
+            0
+        }
         Some("fuzz-decode") => {
             // dv fuzz-decode <ID> <artifact>: decode a libFuzzer input exactly as the sched_fuzz target does, run it,
             // and (if it violates <ID>) write a replay file and print the VIOLATION line
